@@ -105,6 +105,13 @@ class Multi:
                 pb.assume_pd()
             if pb.ftype == "xy" and pb.n > 1:
                 self.cx.assume(pb.x[0] != pb.x[1])  # non-degenerate design
+            if any(s_["axis"] == "x" for s_ in pb.sources):
+                # with x uncertainties the covariance depends on the slope: a strictly positive y uncertainty keeps it
+                # positive definite at EVERY parameter point a real backend may visit (precondition of the property)
+                for s_ in pb.sources:
+                    if s_["axis"] == "y" and s_["kind"] in ("SA", "SAv"):
+                        for v in s_["err"]:
+                            self.cx.assume(v > 0)
 
     def assume_positive_models(self):
         """Poisson / unbinned likelihoods are defined for positive model values only"""
